@@ -172,6 +172,13 @@ pub fn run(tier: &str, seed: u64, outdir: &str) {
         json!({"$or": [{"$and": [{"issuer_did": URI}]}]}), json!({"$exist": ["schema_id"]}), json!({"schema_name": URI}),
         json!("str"), json!(1), json!(null), json!(true),
         json!({"a": "b", "c": "d"}), json!({"$and": [{"a": "b"}], "$or": [{"c": "d"}], "e": "f"}),
+        // lists of three and more (round 10: a printer that keeps the first two names of `$exist`)
+        json!({"$exist": ["a", "b", "c"]}), json!({"$exist": ["a", "b", "c", "d", "e"]}),
+        json!({"$or": [{"$not": {"$exist": ["w", "x", "y", "z"]}}, {"a": "b"}]}),
+        json!({"a": {"$in": ["x", "y", "z"]}}), json!({"a": {"$in": ["p", "q", "r", "s", "t"]}}),
+        json!({"$and": [{"a": "1"}, {"b": "2"}, {"c": "3"}, {"d": "4"}]}), json!({"$or": [{"a": "1"}, {"b": "2"}, {"c": "3"}]}),
+        json!({"$not": {"$and": [{"a": {"$in": ["x", "y", "z"]}}, {"$exist": ["a", "b", "c"]}, {"$or": [{"a": "1"}, {"b": "2"}, {"c": "3"}]}]}}),
+        json!([{"a": "1"}, {"b": "2"}, {"c": "3"}, {"d": "4"}]),
     ];
     for v in &corpus {
         emit_parse(&mut out, "corpus", v);
